@@ -22,7 +22,9 @@ Definition best_alignment (rows : list row) : option row :=
 
 Definition row_has_pairs (w : row) : bool := match row_pairs (rsegs w) with [] => false | _ => true end.
 
-(* __getAlignmentRow for every selected peak; the engine's iteration counter `it` is per-process state threaded through *)
+(* __getAlignmentRow for every selected peak; the engine's iteration counter `it` is threaded through sequentially here.  In the real
+   pool every task starts from a pickled copy of the coordinator (counter 1 for every task); the difference is confined to the
+   unprinted `source` field: see model/Pool.v and props/C09.v (any counter assignment gives the same rows up to source). *)
 Fixpoint candidate_rows (P : params) (q : omap) (sds : list cseed) (it : Z) : res (list row * Z) :=
   match sds with
   | [] => Ok ([], it)
